@@ -13,7 +13,7 @@ CONSTANTS
     EpsPts = TRUE
     ReadBefore = TRUE
     Repeat = FALSE
-    Lead = 1
+    Lead = 0
 INIT PInit
 NEXT PNext
 INVARIANT CommitChecks
